@@ -64,7 +64,7 @@ type VerifC10Obs struct {
 	// the first thing waitForResponses waits for), while a lingering client is still there
 	RunAtDone bool   `json:"runAtDone"`
 	Wait      string `json:"wait"` // nil | closed | proc | fail | hang
-	Running bool     `json:"running"` // isRunning() once waitForResponses has returned (polled up to 0.5s for false)
+	Running bool     `json:"running"` // isRunning() once waitForResponses has returned (polled up to 2 s for false)
 	Late    string   `json:"late"`    // return of a sendRequest issued after everything
 	LateCbs int      `json:"lateCbs"` // callbacks of that late request
 	Hang    string   `json:"hang,omitempty"`
@@ -353,7 +353,7 @@ func VerifC10Run(spec VerifC10Spec) VerifC10Obs {
 		return obs
 	}
 	// the process-exit notification runs in its own goroutine: give it time
-	deadline := time.Now().Add(500 * time.Millisecond)
+	deadline := time.Now().Add(2 * time.Second)
 	for runner.isRunning() && time.Now().Before(deadline) {
 		time.Sleep(200 * time.Microsecond)
 	}
